@@ -446,6 +446,8 @@ class Interp:
         self.steps = 0
         self.skipped_guards = []
         self.trailing = 1       # number of unmaterialised trailing axes
+        self.overrides = {}     # function qualname -> PyFunc (rule models)
+        self.cls_stack = []
 
     # ------------------------------------------------------------------
     def call(self, fn: FuncInfo, args: List[Any], kwargs: Dict[str, Any] = None,
@@ -483,7 +485,11 @@ class Interp:
             env[a.kwarg.arg] = kwargs
         elif kwargs:
             raise Unsupported(f"unexpected keyword {list(kwargs)}")
-        return self.run_body(node.body, env, fn.module)
+        self.cls_stack.append(fn.cls)
+        try:
+            return self.run_body(node.body, env, fn.module)
+        finally:
+            self.cls_stack.pop()
 
     def run_body(self, body, env, module: ModuleInfo):
         self.depth += 1
@@ -533,6 +539,7 @@ class Interp:
                 # a value-dependent guard whose only effect is an error exit:
                 # the continuing path is what is analysed
                 if not st.orelse and all(isinstance(b, ast.Raise)
+                                         or _is_diagnostic(b)
                                          for b in st.body):
                     self.skipped_guards.append(st)
                     return
@@ -556,6 +563,9 @@ class Interp:
             return
         if isinstance(st, ast.Expr):
             if isinstance(st.value, ast.Constant):
+                return
+            if _is_diagnostic(st):
+                # diagnostics have no bearing on the analysed values
                 return
             self.eval(st.value, env, module)
             return
@@ -704,7 +714,12 @@ class Interp:
             left = self.eval(e.left, env, module)
             for op, r in zip(e.ops, e.comparators):
                 right = self.eval(r, env, module)
-                if not self.compare(op, left, right, e):
+                c = self.compare(op, left, right, e)
+                if not isinstance(c, bool):
+                    if len(e.ops) == 1:
+                        return c        # symbolic comparison result
+                    raise Unsupported("chained symbolic comparison", e)
+                if not c:
                     return False
                 left = right
             return True
@@ -730,6 +745,24 @@ class Interp:
             ix = self.eval_index(e.slice, env, module)
             return self.subscript(o, ix, e)
         if isinstance(e, ast.Attribute):
+            if isinstance(e.value, ast.Call) and isinstance(
+                    e.value.func, ast.Name) and e.value.func.id == "super" \
+                    and "self" in env and isinstance(env["self"], Obj):
+                obj = env["self"]
+                start = self.cls_stack[-1] if self.cls_stack else None
+                if e.value.args:
+                    c0 = self.eval(e.value.args[0], env, module)
+                    if isinstance(c0, ClassRef):
+                        start = c0.cls
+                if obj.cls is None or start is None:
+                    raise Unsupported("super() without class context", e)
+                mro = obj.cls.mro()
+                if start not in mro:
+                    raise Unsupported("super(): class not in the MRO", e)
+                for c in mro[mro.index(start) + 1:]:
+                    if e.attr in c.methods:
+                        return Bound(c.methods[e.attr], obj)
+                raise Unsupported(f"super().{e.attr} not found", e)
             o = self.eval(e.value, env, module)
             return self.getattr(o, e.attr, e, module)
         if isinstance(e, ast.Call):
@@ -815,6 +848,8 @@ class Interp:
         return out
 
     def compare(self, op, a, b, node):
+        if hasattr(a, "skv_compare"):
+            return a.skv_compare(op, b)
         if isinstance(op, (ast.Is, ast.IsNot)) and (
                 isinstance(a, Builtin) or isinstance(b, Builtin)):
             r = isinstance(a, Builtin) and isinstance(b, Builtin) and \
@@ -957,6 +992,11 @@ class Interp:
             return AnyShape(self.trailing)
         if is_scalar(o) and name == "T":
             return o
+        if isinstance(o, Opaque):
+            return Opaque(o.tag + "." + name)
+        if isinstance(o, str) and name in ("format", "join", "upper",
+                                           "lower", "strip"):
+            return PyFunc(lambda a, k, n: "<str>")
         if isinstance(o, dict) and name in ("get", "items", "keys", "values"):
             return Builtin("dict." + name, o)
         if isinstance(o, list) and name in ("append", "extend"):
@@ -1003,6 +1043,8 @@ class Interp:
     def apply(self, f, args, kwargs, node, env=None, module=None):
         if isinstance(f, Bound):
             fn = f.fn
+            if fn.qualname in self.overrides:
+                return self.overrides[fn.qualname].fn(args, kwargs, node)
             if fn.name == "_index_error":
                 raise Raised("_index_error")
             return self.call(fn, args, kwargs, self_obj=f.self_obj)
@@ -1469,6 +1511,16 @@ def _class_env(interp, c: ClassInfo):
         def __getitem__(self, k):
             return interp.eval(c.attrs[k], _class_env(interp, c), c.module)
     return LazyEnv()
+
+
+def _is_diagnostic(st) -> bool:
+    if not (isinstance(st, ast.Expr) and isinstance(st.value, ast.Call)):
+        return False
+    f = st.value.func
+    if isinstance(f, ast.Attribute) and isinstance(f.value, ast.Name) and \
+            f.value.id in ("logger", "logging", "warnings"):
+        return True
+    return isinstance(f, ast.Name) and f.id in ("warn", "print")
 
 
 def _is_static(node: ast.FunctionDef) -> bool:
